@@ -498,9 +498,9 @@ def named_config(name, tables, rng, text=None):
             d = {}
             for nm in r["configuration"]:
                 dv = r["defaults"].get(nm)
-                if dv in ("yes", True):
+                if dv == "yes" or dv is True:
                     d[nm] = False
-                elif dv in ("no", False) and nm not in ("disable", "fixable"):
+                elif (dv == "no" or dv is False) and nm not in ("disable", "fixable"):
                     d[nm] = True
             for k in ("disable", "fixable"):
                 d.pop(k, None)
